@@ -148,8 +148,16 @@ pub fn unbox(b: Box<a>) -> a {{
 def tests_module(rng: Rng, idx: int, n_unit: int, n_prop: int, failing: bool):
     out = ["use fz", "use shared.{Blob, Box, Circle, Rect, Shape}", "", "fn boxed_byte() -> Fuzzer<Box<Int>> {\n  fz.map(fz.byte(), fn(b) { Box { inner: b, tag: 0 } })\n}\n"]
     for i in range(n_unit):
-        k = rng.below(8)
+        k = rng.below(13)
         body = [
+            # the same `expect` / trace / `?` text in many tests of many modules: whatever the code
+            # generator keeps per message (hoisted trace functions, string constants) is built once
+            # per generator and must still end up un-shared in every test's program
+            "expect [n, ..] = shared.numbers\n  n == n",
+            "expect Some(n): Option<Int> = Some(shared.length(shared.numbers))\n  n >= 3",
+            "(shared.length(shared.numbers) >= 3)? && (shared.length(shared.table) >= 2)?",
+            "trace @\"checking numbers\"\n  shared.length(shared.numbers) >= 3",
+            "expect [n, ..] = shared.numbers\n  expect Some(m): Option<Int> = Some(n)\n  m == n",
             "shared.sum(shared.numbers) == shared.sum(shared.numbers)",
             "shared.length(shared.numbers) >= 3",
             "shared.length(shared.table) >= 2",
@@ -161,8 +169,10 @@ def tests_module(rng: Rng, idx: int, n_unit: int, n_prop: int, failing: bool):
         ][k]
         out.append(f"test unit_{idx}_{i}() {{\n  {body}\n}}\n")
     for i in range(n_prop):
-        k = rng.below(5)
-        if k == 0:
+        k = rng.below(7)
+        if k >= 5:
+            out.append(f"test prop_{idx}_{i}(n via fz.byte()) {{\n  expect [h, ..] = shared.numbers\n  expect Some(m): Option<Int> = Some(n)\n  m + h == n + h\n}}\n")
+        elif k == 0:
             out.append(f"test prop_{idx}_{i}(n via fz.byte()) {{\n  n + shared.length(shared.numbers) >= 3\n}}\n")
         elif k == 1:
             out.append(f"test prop_{idx}_{i}(xs via fz.list_of(fz.byte())) {{\n  shared.sum(xs) + shared.sum(shared.numbers) == shared.sum(shared.numbers) + shared.sum(xs)\n}}\n")
